@@ -5,6 +5,8 @@ pub mod c05;
 pub mod c06;
 pub mod c07;
 pub mod c08;
+pub mod c09;
+pub mod c10;
 pub mod c12;
 pub mod c13;
 pub mod c15;
@@ -20,6 +22,8 @@ pub fn def(id: &str) -> Option<PropertyDef> {
         "C06" => c06::def(),
         "C07" => c07::def(),
         "C08" => c08::def(),
+        "C09" => c09::def(),
+        "C10" => c10::def(),
         "C12" => c12::def(),
         "C13" => c13::def(),
         "C15" => c15::def(),
@@ -27,4 +31,4 @@ pub fn def(id: &str) -> Option<PropertyDef> {
     })
 }
 
-pub const ALL: &[&str] = &["C01", "C02", "C03", "C05", "C06", "C07", "C08", "C12", "C13", "C15"];
+pub const ALL: &[&str] = &["C01", "C02", "C03", "C05", "C06", "C07", "C08", "C09", "C10", "C12", "C13", "C15"];
